@@ -418,6 +418,9 @@ class SymEval:
                 else:
                     args.append(T(a))
             kws = tuple(sorted(((k.arg or "**", T(k.value)) for k in e.keywords), key=lambda x: x[0]))
+            if _is_draw(f):
+                # a random draw is not a function of its arguments: two call sites never denote the same value
+                kws = kws + (("#site", ("const", (getattr(e, "lineno", 0), getattr(e, "col_offset", 0)))),)
             return ("call", f, tuple(args), kws)
         if isinstance(e, ast.Subscript):
             return ("sub", T(e.value), T(e.slice))
@@ -500,6 +503,22 @@ class SymEval:
         if isinstance(op, ast.GtE):
             return ("le", poly_term(pb - pa))
         return ("cmp", type(op).__name__, a, b)
+
+
+_DRAW_METHODS = {"random", "integers", "uniform", "normal", "standard_normal", "choice", "permutation", "permuted",
+                 "shuffle", "beta", "binomial", "exponential", "gamma", "poisson", "bytes", "multinomial", "triangular",
+                 "laplace", "lognormal", "rand", "randn", "randint", "random_", "normal_", "uniform_", "bernoulli_",
+                 "randperm", "bernoulli"}
+
+
+def _is_draw(f: Term) -> bool:
+    if f[0] == "attr" and f[2] in _DRAW_METHODS:
+        return True
+    if f[0] == "global":
+        parts = f[1].split(".")
+        if parts[-1] in _DRAW_METHODS and parts[0] in ("numpy", "random", "torch"):
+            return True
+    return False
 
 
 def _canon_sign(p: Poly) -> Term:
